@@ -1,6 +1,8 @@
 package main
 
 import (
+	"runtime/debug"
+	"runtime/pprof"
 	"go/types"
 	"encoding/json"
 	"flag"
@@ -221,6 +223,12 @@ func init() {
 }
 
 func cmdCheck(args []string) int {
+	debug.SetGCPercent(600)
+	if pf := os.Getenv("GOVC_PROF"); pf != "" {
+		f, _ := os.Create(pf)
+		pprof.StartCPUProfile(f)
+		defer pprof.StopCPUProfile()
+	}
 	fs := flag.NewFlagSet("check", flag.ExitOnError)
 	prop := fs.String("prop", "", "property id")
 	tier := fs.String("tier", "quick", "quick|thorough")
@@ -237,7 +245,7 @@ func cmdCheck(args []string) int {
 	if s := os.Getenv("VERIF_SEED"); s != "" {
 		seed, _ = strconv.Atoi(s)
 	}
-	opts := Options{Timeout: 10, Workers: 16, Seed: seed, Verbose: *verbose, InlineMax: 6, KeepSMT: *keep, Tier: *tier}
+	opts := Options{Timeout: 20, Workers: 16, Seed: seed, Verbose: *verbose, InlineMax: 6, KeepSMT: *keep, Tier: *tier}
 	if *tier == "thorough" {
 		opts.Timeout = 60
 	}
